@@ -368,7 +368,19 @@ struct WL {
             auto h = cow->lock();
             h.cancel();
         }
-        delete cow;
+        {
+            // a snapshot keeps its value alive by itself: it outlives the cow_guarded object
+            auto keep = static_cast<const COW*>(cow)->lock_shared();
+            long v0 = keep->c.read();
+            delete cow;
+            cow = nullptr;
+            keep->alive();
+            long v1 = keep->c.read();
+            if (v0 != v1)
+                gsim::fail("snapshot_changed", "a snapshot held across the destruction of the "
+                           "cow_guarded object changed from %ld to %ld", v0, v1);
+            gsim::probe("cow.snapshot_outlived_container");
+        }
         {
             gsim::Oracle o;
             if (!st.live.empty())
